@@ -31,14 +31,14 @@ ASSUMPTIONS = ["the reference interpreter certifies 'grammatical, ill-formed for
                "column may be 0- or 1-based (the code base uses both conventions)"]
 
 UNDEF_SLOTS = ["positional", "keyword", "list", "mode", "array-index", "indexed-name", "loop-list", "metadata-option", "scalar-init", "array-element",
-               "in-loop-body", "inside-expression"]
+               "in-loop-body", "inside-expression", "after-loop", "far-argument"]
 FAULTS = (["undefined:" + s for s in UNDEF_SLOTS]
           + ["reserved:scalar", "reserved:array"]
           + ["mode:float-literal", "mode:complex-literal", "mode:float-variable", "mode:str-variable", "mode:computed-float", "mode:float-array-element", "mode:in-loop"]
           + ["complex:int-scalar-literal", "complex:float-scalar-literal", "complex:float-scalar-computed", "complex:int-scalar-computed",
              "complex:float-array-literal", "complex:float-array-computed", "complex:int-array-computed", "complex:via-variable"]
           + ["complex:float-scalar-zero-imag", "complex:int-array-zero-imag"]
-          + ["looptype:str-in-int", "looptype:float-in-int", "looptype:str-in-float", "looptype:int-in-str"]
+          + ["looptype:str-in-int", "looptype:float-in-int", "looptype:str-in-float", "looptype:int-in-str", "looptype:near-integer-in-int"]
           + ["include:arity", "include:keywords"])
 REQUIRED_TAGS = ["fault:" + f for f in FAULTS]
 EXPECT = {"undefined": "undefined", "reserved": "reserved-name", "mode": "mode-type", "complex": "complex-to-real", "looptype": "loop-type"}
@@ -116,6 +116,12 @@ def inject(rng, g, fault):
             new = "for int %s in 1:3\n    H | 0\n    G(%s) | 1" % (G.ident(), u)
         elif slot == "inside-expression":
             new = "G(2*(1 + sin(%s))/3) | 0" % u
+        elif slot == "after-loop":
+            # the variable of a loop that has finished is not defined any more
+            use = rng.choice(["G(%s) | 0", "G | %s", "G(k=%s) | 1", "float zz_9 = %s + 1", "G(k=[1, %s]) | 0"]) % u
+            new = "for %s %s in %s\n    H | 0\n%s" % (rng.choice(["int", "float"]), u, rng.choice(["0:3", "[1, 2]", "2:3"]), use)
+        elif slot == "far-argument":
+            new = "G(%s, %s, k1=1, k2=[1, 2, 3, 4, 5, 6, 7, 8, 9, 10, 11, %s]) | 0" % (", ".join(str(i) for i in range(12)), "1", u)
     elif cls == "reserved":
         ident = rng.choice(["q0", "q12", "name", "version", "target", "type"])
         if slot == "scalar":
@@ -170,6 +176,8 @@ def inject(rng, g, fault):
             new = 'for float %s in ["x", 0.5]\n    G(%s) | 0' % (v, v)
         elif slot == "int-in-str":
             new = 'for str %s in "a", 3\n    G(%s) | 0' % (v, v)
+        elif slot == "near-integer-in-int":
+            new = "for int %s in [3, %s]\n    G | 0" % (v, rng.choice(["250.001", "7000.02", "160001/4", "100000.5", "1e9 + 0.5", "2.0000001"]))
     if new is None:
         return None
     ins = new.split("\n")
